@@ -180,6 +180,56 @@ theorem C03_variation_depth (g : Grammar) (dec : Decider) (fuel : Nat) (p1 p2 : 
   exact ⟨fun s s' c h => C03_mutate_depth g dec fuel p1 s s' c hc hk hD hv r1 h,
     fun s s' c1 c2 h => C03_crossover_depth g dec fuel p1 p2 s s' c1 c2 hc hk hD hv r1 r2 hp1 hp2 h⟩
 
+/-! ### Sequences of variation steps
+
+`tree_mutate` / `tree_crossover` re-enter creation at a context STORED in the parent
+(`gengy_synthesis_context`), and crossover may promote an inner node of the other parent to
+a root.  The invariant that survives this is hereditary: every stored context inside an
+individual still leaves room for the minimum tree of its node (`budgetOK`). -/
+
+/-- Everything `create_node` returns under the budget invariant is `budgetOK`: each node of
+class `c` stored at depth `d` has `d + dist c ≤ maxDepth` and `d + depth ≤ maxDepth`. -/
+theorem C03_create_budget (g : Grammar) (dec : Decider) (fuel : Nat) (ty : Ty) (ctx : Ctx)
+    (deps : List (String × Val)) (s s' : SynSt) (v : Val)
+    (hc : distConsistent g = true) (hk : dec.kind.depthLimited = true)
+    (hD : dec.maxDepth < INF)
+    (hinv : ctx.depth + g.distOf ty ≤ dec.maxDepth)
+    (h : createNode g dec fuel ty ctx deps s = .ok v s') :
+    budgetOK g dec.maxDepth v = true :=
+  (budgetP_all g dec hc hk hD fuel).1 ty ctx deps s v s' h hinv
+
+/-- The individual invariant `IndOK` (respects the limit, `budgetOK`, root context leaves room
+for the start symbol) holds for every initial tree and is preserved by both operators. -/
+theorem C03_variation_invariant (g : Grammar) (dec : Decider)
+    (hc : distConsistent g = true) (hk : dec.kind.depthLimited = true)
+    (hD : dec.maxDepth < INF) (hv : deciderValid g dec = true) :
+    (∀ fuel s s' v, randomTree g dec fuel s = .ok v s' → IndOK g dec v) ∧
+    (∀ fuel p s s' c, IndOK g dec p → treeMutate g dec fuel p s = .ok c s' → IndOK g dec c) ∧
+    (∀ fuel p1 p2 s s' c1 c2, IndOK g dec p1 → IndOK g dec p2 →
+      treeCrossover g dec fuel p1 p2 s = .ok (c1, c2) s' → IndOK g dec c1 ∧ IndOK g dec c2) := by
+  have hmin : g.minTreeDepth ≤ dec.maxDepth := by
+    have := C03_valid_gives_invariant g dec hk hv
+    rw [distOf_start] at this; simpa using this
+  refine ⟨?_, ?_, ?_⟩
+  · intro fuel s s' v h
+    exact indOK_create g dec fuel ⟨0, 0⟩ s s' v hc hk hD (by simpa using hmin) h
+  · intro fuel p s s' c hp h
+    exact indOK_mutateRoot g dec fuel p none s s' c hc hk hD hmin hp (fun _ h => by cases h) h
+  · intro fuel p1 p2 s s' c1 c2 h1 h2 h
+    exact indOK_crossover g dec fuel p1 p2 s s' c1 c2 hc hk hD hmin h1 h2 h
+
+/-- "This stays true after any sequence of mutations and crossovers under the same limit":
+every individual reachable from initial trees (any random source or genotype, any fuel) by
+any number of `tree_mutate` / `tree_crossover` steps respects the limit. -/
+theorem C03_sequence_depth (g : Grammar) (dec : Decider)
+    (hc : distConsistent g = true) (hk : dec.kind.depthLimited = true)
+    (hD : dec.maxDepth < INF) (hv : deciderValid g dec = true)
+    (v : Val) (h : Reachable g dec v) : v.depth ≤ dec.maxDepth := by
+  have hmin : g.minTreeDepth ≤ dec.maxDepth := by
+    have := C03_valid_gives_invariant g dec hk hv
+    rw [distOf_start] at this; simpa using this
+  exact (indOK_reachable g dec hc hk hD hmin v h).1
+
 /-! ### Non-vacuity: the hypotheses hold on a concrete analysed grammar with an abstract class,
 recursion, a list-of-abstract field and a union; the limit is reached exactly -/
 
@@ -194,5 +244,9 @@ example : depthOf (randomTree exG ⟨.pigrow, 3⟩ 50 (exSt [1, 1, 0, 3, 0, 0]))
 example : depthOf (mapGE exG ⟨.grow, 3⟩ 50 [1, 1, 0, 3, 0, 0] true) = some 2 := by decide
 example : depthOf (mapDSGE exG 3 50 [] { draws := [1, 1, 0, 3, 0, 0] }) = some 3 := by decide +kernel
 example : depthOf (mapDSGE exG 0 50 [] { draws := [] }) = none := by decide
+
+-- an initial tree and a mutant of it are `Reachable`
+example : ∃ v, Reachable exG ⟨.grow, 3⟩ v :=
+  ⟨_, .mutate 20 _ (exSt [2, 1]) _ _ (.init 20 (exSt [1, 1, 0, 3, 0, 0]) _ _ rfl) rfl⟩
 
 end GEVerif.C03
